@@ -177,6 +177,7 @@ def evaluate(P, cases, stats):
        dict(case, cls ('prop' | 'corr' | 'model'), key, py, model)"""
     res = run_both([c for c in cases])
     findings = []
+    timeouts = []
     for c, (py, mo) in zip(cases, res):
         if 'PROTOCOL' in mo:
             raise Infra('driver rejected case %s' % c)
@@ -189,7 +190,10 @@ def evaluate(P, cases, stats):
                 findings.append(dict(case=c, cls='prop', key='the cost of a history of single mutations is not bounded by the changed paths (per-case time / memory limit exceeded)',
                                      py='timeout=' + py['p.timeout'], model=''))
                 continue
-            raise Infra('case timed out (%s s) on the python side: %s' % (py['p.timeout'], c[:300]))
+            # for the other properties a time-out alone is an infrastructure problem (exit 2) - but the remaining cases are
+            # still evaluated: if the property's own predicate fails on one of them, that is what gets reported
+            timeouts.append('case timed out (%s s) on the python side: %s' % (py['p.timeout'], c[:300]))
+            continue
         if 'HARNESS' in py:
             if py['HARNESS'] == 'crash':
                 findings.append(dict(case=c, cls='prop', key='import/crash', py=py.get('stderr', '')[-800:], model=''))
@@ -198,6 +202,8 @@ def evaluate(P, cases, stats):
         for f in P.compare(parse(c), py, mo, stats):
             f['case'] = c
             findings.append(f)
+    if timeouts and not any(f['cls'] == 'prop' for f in findings):
+        raise Infra(timeouts[0])
     return findings
 
 
